@@ -488,10 +488,19 @@ void mmd_export_toc_entry_html(DString * out, const char * source, scratch_pad *
 				// This entry is a direct descendant of the parent
 				scratch->label_counter = (int) * counter;
 				temp_char = label_from_header(source, entry, scratch);
-				printf("<li><a href=\"#%s\">", temp_char);
+				if (scratch->extensions & EXT_NO_LABELS) {
+					// Headers carry no id, so there is nothing to link to
+					print_const("<li>");
+				} else {
+					printf("<li><a href=\"#%s\">", temp_char);
+				}
+
 				mmd_export_token_tree_html(out, source, entry->child, scratch);
 				trim_trailing_whitespace_d_string(out);
-				print_const("</a>");
+
+				if (!(scratch->extensions & EXT_NO_LABELS)) {
+					print_const("</a>");
+				}
 
 				if (*counter < scratch->header_stack->size - 1) {
 					next = stack_peek_index(scratch->header_stack, *counter + 1);
